@@ -190,8 +190,21 @@ def rand_oid(rng):
     return bytes(rng.randrange(256) for _ in range(20)).hex()
 
 
+def _tok_origins():
+    """origins built from literals harvested from the code under test (a special case keyed on a literal - an origin that
+    starts with 'swh:', a scheme that is refused - is exercised even when the literal is new)"""
+    from .gitobj_common import source_tokens
+    out = []
+    for t in source_tokens("str"):
+        if t and not any(ch.isspace() for ch in t):
+            out += [t, t + "example.org/r", "https://example.org/" + t, t + ":x"]
+    return out
+
+
 def rand_origin(rng):
     r = rng.random()
+    if r < 0.1:
+        return cps(rng.choice(_tok_origins()))
     if r < 0.55:
         return cps(rng.choice(ORIGINS))
     return [rng.choice(ALPHA) for _ in range(rng.randrange(0, 13))]
@@ -211,6 +224,11 @@ def rand_path(rng):
 
 def rand_lines(rng):
     r = rng.random()
+    if r < 0.08:      # constants of the code under test (limits a change introduces) and their neighbours
+        from .gitobj_common import source_ints
+        c = [v for v in source_ints() if v >= 0]
+        a = rng.choice(c)
+        return [str(a), rng.choice([None, str(rng.choice(c)), str(a)])]
     if r < 0.2:
         return ["0", None]
     if r < 0.3:
